@@ -14,7 +14,8 @@ CONSTANTS
   BugNoTerminate = FALSE
   BugKeepType = FALSE
   BugNoStatus = TRUE
+  BugPreCount = FALSE
 VIEW view
-INVARIANTS TypeOK Legal ReadExact WriteExact KindRight HealthyOk FaultIsError FailedInitForgets
+INVARIANTS TypeOK Legal ReadExact WriteExact NowhereElse KindRight HealthyOk FaultIsError FailedInitForgets
 PROPERTY Terminates
 CHECK_DEADLOCK FALSE
